@@ -79,6 +79,10 @@ func verifPoint(name string) {
 
 var verifReadOffsets sync.Map // "<db ptr>/<table>" -> wal.Offset of the last entry read by the table
 
+func verifReadInit(t *table, offset wal.Offset) {
+	verifReadOffsets.Store(fmt.Sprintf("%p/%s", t.db, t.Name), append(wal.Offset(nil), offset...))
+}
+
 func verifRead(t *table, offset wal.Offset) {
 	verifReadOffsets.Store(fmt.Sprintf("%p/%s", t.db, t.Name), append(wal.Offset(nil), offset...))
 	verifCount("read", t)
